@@ -45,6 +45,8 @@ ALLOWED = {
     "VARCHAR": {"VARCHAR", "TEXT"}, "TEXT": {"VARCHAR", "TEXT"},
     "BOOLEAN": {"BOOLEAN"}, "DATE": {"DATE"}, "TIME": {"TIME"}, "BINARY": {"BLOB", "BINARY", "VARBINARY"},
     "DECIMAL(p,s)": {"DECIMAL(p,s)"},
+    # a declared precision is a promise (NUMBER(3,0) refuses 12345; TRY_TO_DECIMAL(x, 3, 0) answers NULL): it survives the pipeline
+    "DECIMAL(p,0)": {"DECIMAL(p,s)"},
 }
 WIDTH_NOTE = {
     "FLOAT": "Snowflake FLOAT/FLOAT4/FLOAT8/REAL are 64-bit", "DOUBLE": "64-bit",
@@ -54,13 +56,13 @@ WIDTH_NOTE = {
 }
 
 
-def _final_type(prog, member: str, with_params: bool):
+def _final_type(prog, member: str, with_params: bool, scale: str = "2"):
     def mk():
         from ..execmodel import lit
         from ..values import Lst
         args = {"this": EnumV(f"DataType.Type.{member}"), "nested": Const(False)}
         if with_params:
-            args["expressions"] = Lst([node("DataTypeParam", this=lit("10", False)), node("DataTypeParam", this=lit("2", False))])
+            args["expressions"] = Lst([node("DataTypeParam", this=lit("10", False)), node("DataTypeParam", this=lit(scale, False))])
         return node("DataType", "coltype", **args)
     outs = set()
     for p in run_pipeline_on(prog, mk):
@@ -87,9 +89,9 @@ def rule_width(ctx):
     site = prog.fn("cursor", "FakeSnowflakeCursor._transform")
     loc = prog.mod("cursor").loc(site)
     for declared, allowed in ALLOWED.items():
-        params = declared == "DECIMAL(p,s)"
+        params = declared.startswith("DECIMAL(")
         member = "DECIMAL" if params else declared
-        for mem, has_params in _final_type(prog, member, params):
+        for mem, has_params in _final_type(prog, member, params, scale="0" if declared == "DECIMAL(p,0)" else "2"):
             if mem == "?":
                 ctx.ob("C01.a", f"{declared}: pipeline result readable", None, loc)
                 continue
@@ -328,6 +330,26 @@ def rule_pandas_create_target(ctx):
                                   f"write_pandas creates `{mt.group(1)}` but loads `{want}`: with a schema / database argument that differs from the "
                                   f"session's the table is created in the current schema and the rows go elsewhere (or the load fails)")
     ctx.floor("C01.c6 auto-create statements", n, 3)
+    # the auto-created table is a schema object every session finds under its qualified name: it is TEMPORARY (private to the
+    # writing connection) only when the caller asked for a temporary table
+    k = 0
+    for label, kw, temp_ok in (("default options", {}, False), ("table_type='transient'", {"table_type": Const("transient")}, False),
+                               ("table_type=''", {"table_type": Const("")}, False)):
+        seen = set()
+        for texts in write_pandas_statements(prog, auto_create_table=Const(True), **kw):
+            for txt in texts:
+                mt = re.match(r"CREATE\s+(?:OR\s+REPLACE\s+)?((?:LOCAL\s+|GLOBAL\s+)?TEMP(?:ORARY)?\s+)?TABLE\b", txt, re.I)
+                if not mt or txt in seen:
+                    continue
+                seen.add(txt)
+                k += 1
+                ok = temp_ok or not mt.group(1)
+                ctx.ob("C01.c6", f"write_pandas(auto_create_table, {label}) creates a table other sessions can see", ok, m.loc(fn), txt[:60])
+                if not ok:
+                    ctx.violation("C01.c6", "pandas_tools", "write_pandas", f"auto-created table is TEMPORARY with {label}", m.loc(fn),
+                                  f"with {label} write_pandas creates `{txt[:50]}…`: a temporary table lives in the writing connection's private "
+                                  f"catalog, so `<db>.<schema>.<table>`, SHOW TABLES and every other connection do not see the loaded rows")
+    ctx.floor("C01.c6 auto-create statements by table_type", k, 3)
 
 
 class FrameHooks(ExecHooks):
@@ -490,7 +512,58 @@ def rule_clone(ctx):
 
 from .c08 import rule_client_side, rule_server_side  # noqa: E402  (bound parameters are one of C01's ingestion paths)
 
+_DT_ALLOWED = {
+    # pandas dtype name -> column types under which every value of that dtype reads back equal (anything else that is a known
+    # Snowflake type name loses something: fractions, the zone, the time of day, the value's Python type)
+    "int64": r"(NUMBER|DECIMAL|NUMERIC)(\(\d+(,\s*0)?\))?|INT|INTEGER|BIGINT",
+    "float64": r"FLOAT|FLOAT4|FLOAT8|DOUBLE|DOUBLE PRECISION|REAL",
+    "bool": r"BOOLEAN",
+    "object": r"VARCHAR|STRING|TEXT|VARCHAR\(16777216\)",
+    "datetime64[ns]": r"TIMESTAMP_NTZ|TIMESTAMPNTZ|TIMESTAMP|DATETIME|TIMESTAMP_NTZ\(9\)",
+    "datetime64[ns, UTC]": r"TIMESTAMP_TZ|TIMESTAMPTZ|TIMESTAMP_LTZ|TIMESTAMPLTZ|TIMESTAMP_TZ\(9\)|TIMESTAMP_LTZ\(9\)",
+    "datetime64[ns, Europe/Berlin]": r"TIMESTAMP_TZ|TIMESTAMPTZ|TIMESTAMP_LTZ|TIMESTAMPLTZ|TIMESTAMP_TZ\(9\)|TIMESTAMP_LTZ\(9\)",
+    "datetime64[us, UTC]": r"TIMESTAMP_TZ|TIMESTAMPTZ|TIMESTAMP_LTZ|TIMESTAMPLTZ|TIMESTAMP_TZ\(9\)|TIMESTAMP_LTZ\(9\)",
+}
+_SF_TYPE_WORDS = {"NUMBER", "DECIMAL", "NUMERIC", "INT", "INTEGER", "BIGINT", "SMALLINT", "TINYINT", "BYTEINT", "FLOAT", "FLOAT4", "FLOAT8", "DOUBLE", "REAL",
+                  "BOOLEAN", "VARCHAR", "STRING", "TEXT", "CHAR", "CHARACTER", "BINARY", "VARBINARY", "DATE", "TIME", "DATETIME", "TIMESTAMP", "TIMESTAMP_NTZ",
+                  "TIMESTAMP_LTZ", "TIMESTAMP_TZ", "TIMESTAMPNTZ", "TIMESTAMPLTZ", "TIMESTAMPTZ"}
+
+
+def rule_pandas_dtype_map(ctx):
+    """C01.c7: the column type write_pandas(auto_create_table=True) declares for a frame column can hold every value of that dtype
+    unchanged. The dtype -> type function is interpreted on concrete dtype names (it may refuse a dtype; an answer that needs
+    more than the name is not judged): int64 is not FLOAT, float64 is not NUMBER, a zone-aware datetime is not TIMESTAMP_NTZ."""
+    prog = ctx.prog
+    m = prog.mod("pandas_tools")
+    cands = [q for q, f in m.functions.items() if "." not in q and len(f.args.args) == 1
+             and sum(1 for r in ast.walk(f) if isinstance(r, ast.Return) and isinstance(r.value, ast.Constant) and isinstance(r.value.value, str)
+                     and r.value.value.split("(")[0].strip().upper() in _SF_TYPE_WORDS) >= 2]
+    ctx.floor("C01.c7 dtype -> column type functions", len(cands), 1)
+    n = 0
+    for q in cands:
+        fn = m.functions[q]
+        for dt, allowed in _DT_ALLOWED.items():
+            paths = explore(prog, lambda: ExecHooks(None), lambda I, q=q, dt=dt: I.call(I.global_lookup("pandas_tools", q), [Const(dt)], {}, None), max_paths=16)
+            for p in paths:
+                n += 1
+                if p.outcome != "return" or not (isinstance(p.value, Const) and isinstance(p.value.v, str)):
+                    ctx.ob("C01.c7", f"{q}({dt}): refused, or decided by more than the dtype name", None if p.outcome == "return" else True, m.loc(fn),
+                           tagof(p.value)[:60])
+                    continue
+                t = " ".join(p.value.v.upper().split())
+                known = t.split("(")[0].strip() in _SF_TYPE_WORDS
+                ok = bool(re.fullmatch(allowed, t)) or not known
+                ctx.ob("C01.c7", f"{q}({dt}) = {t}: holds every value of the dtype unchanged", ok if known else None, m.loc(fn))
+                if not ok:
+                    ctx.violation("C01.c7", "pandas_tools", q, f"dtype {dt} -> {t}", m.loc(fn),
+                                  f"a frame column of dtype {dt} is auto-created as {t}, which cannot hold its values unchanged (allowed: {allowed}): "
+                                  + ("a zone-aware timestamp stored without its zone reads back as a naive, offset-shifted datetime" if "," in dt else
+                                     "the values read back differ from the ones written"))
+    ctx.floor("C01.c7 dtype evaluations", n, 8)
+
+
 RULES = [
+    ("C01.c7", rule_pandas_dtype_map, ("quick", "thorough")),
     ("C01.c6", rule_pandas_create_target, ("quick", "thorough")),
     ("C01.g", rule_clone, ("quick", "thorough")),
     ("C01.e", rule_client_side, ("quick", "thorough")),
